@@ -446,7 +446,9 @@ def gen_eager(rnd, spec):
         if kind == "composite":
             sp["varargs"] = True
         # ephemeral: the class only lives for this case and is garbage collected afterwards (its address gets reused)
-        target = {"kind": kind, "spec": sp, "service": rnd.random() < 0.25, "ephemeral": rnd.random() < 0.4}
+        target = {"kind": kind, "spec": sp, "service": rnd.random() < 0.25, "ephemeral": rnd.random() < 0.4,
+                  # a subclass that adds nothing: constructor and signature are inherited
+                  "subclass": rnd.random() < 0.3}
         from_names = [n for n, _ in sp["pos"] + sp["kwonly"]]
         npos_max = len(sp["pos"]) + 2
     calls = []
@@ -480,6 +482,9 @@ def run_eager(case, result):
         cls = make_class(t["kind"], t["spec"], t["service"], ephemeral=t.get("ephemeral", False))
         if t.get("ephemeral"):
             result.count("eager_cases_with_short_lived_class")
+        if t.get("subclass"):
+            cls = type("Sub" + cls.__name__, (cls,), {"__doc__": "inherits everything"})
+            result.count("eager_cases_with_plain_subclass%s" % ("_of_service_class" if t["service"] else ""))
         leaf = t["kind"] in ("pool", "composite")
         spec = t["spec"]
         label = "generated %s %r" % (t["kind"], spec)
@@ -685,7 +690,7 @@ def run_shard(spec):
 def finish(total, tier):
     for name in ("chains_checked", "chains_rebuilt_from_reused_templates", "chains_tail_instance", "chains_tail_template", "chains_tail_curried",
                  "parenthesisations_exhaustive", "template_calls_checked", "calls_bindable", "calls_unbindable",
-                 "shipped_chains_checked", "eager_cases_with_short_lived_class"):
+                 "shipped_chains_checked", "eager_cases_with_short_lived_class", "eager_cases_with_plain_subclass", "eager_cases_with_plain_subclass_of_service_class"):
         if not total.counters.get(name) and not total.violations:
             total.inconc("monitor never observed: " + name)
 
